@@ -152,18 +152,12 @@ def registration(ctx) -> None:
     ctx.check('self.select(expression)' in text, 'C14.registration', filt, 'filter() also registers the columns of the expression', filt.node, key='filter:select')
     ctx.check('expression.factors.items()' in text and '.factors.add(factor)' in text, 'C14.registration', filt, 'filter() registers the factor of each table with that table', filt.node, key='filter:factors')
     own_key_rule(ctx, 'C14.registration')
-    # columns are filed under the origin of the very column that is filed (the segment visit_table reads)
+    # columns are filed under the origin of the very column that is filed (the segment visit_table reads); referenced
+    # elements are re-attributed to their base table (the lazy feed and every push-down consumer are keyed by tables),
+    # elements of any other referenced source are left to that source's own statement.  Decided by walking the loop body of
+    # select() once per case (origin is a Reference? its instance a Table?) over symbolic values - the spelling is free
     sel = prog.func(f'{PARSER}:Container.Context.Tables.select')
-    adds = [c for c in core.calls_in(sel.node) if isinstance(c.func, ast.Attribute) and c.func.attr == 'add' and core.src(c.func.value).endswith('.fields')]
-    okf = bool(adds) and all(isinstance(c.func.value.value, ast.Subscript) and core.src(c.func.value.value.slice) == f'{core.src(c.args[0])}.origin' for c in adds)
-    ctx.check(okf, 'C14.registration', sel, 'a column is registered in the segment of its own origin (self[field.origin].fields.add(field)): after re-attributing a referenced element to its base table the base table segment must receive it', adds[0] if adds else sel.node, key='select:own-origin')
-    # referenced elements are re-attributed to their base table (the lazy feed and every push-down consumer are keyed by
-    # tables), elements of any other referenced source are left to that source's own statement
-    f0 = core.src(next(x for x in core.walk_local(sel.node) if isinstance(x, ast.For)).target)
-    ref_t, tab_t = ('isinstance(origin, dsl.Reference)', True), ('isinstance(origin.instance, dsl.Table)', True)
-    shared.stmt_under(ctx, 'C14.registration', sel, f'{f0} = dsl.Column(origin.instance, {f0}.name)', [ref_t, tab_t], 'an element of a referenced table is registered as the column of that table', 'select:re-attribute', inlined=False)
-    conts = [c for c in core.walk_local(sel.node) if isinstance(c, ast.Continue)]
-    ctx.check(len(conts) == 1 and sorted(cfg.cguards(conts[0], sel.node)) == sorted([ref_t, (tab_t[0], False)]), 'C14.registration', sel, 'only elements of referenced non-table sources are skipped', conts[0] if conts else sel.node, key='select:skip')
+    _select_cases(ctx, sel)
     # the only reader
     vt = prog.func(f'{PARSER}:Visitor.visit_table')
     _visit_table(ctx, vt)
@@ -185,6 +179,84 @@ def registration(ctx) -> None:
                     gs = [(core.src(t), pol) for t, pol in cfg.guards(c, fn.node, siblings=False)]
                     okg = all((t == f'{var}.{m} is not None' and pol) or (t == f'{var}.{m} is None' and not pol) for t, pol in gs)
                     ctx.check(okg, 'R-SIBLING', fn, f'`{var}.{m}` is visited whenever it is present (guards: {gs})', c, key=f'{mname}:{m}:guard')
+
+
+def _select_cases(ctx, sel) -> None:
+    loop = next((x for x in core.walk_local(sel.node) if isinstance(x, ast.For)), None)
+    if loop is None or not isinstance(loop.target, ast.Name):
+        ctx.fail('C14.registration', sel, 'select(): loop over the dissected elements not found', sel.node, key='select:loop')
+        return
+    ctx.check('Element.dissect(' in core.src(loop.iter), 'C14.registration', sel, 'select() walks every element of the given features (Element.dissect)', loop, key='select:dissect')
+    F, O, I, COL = 'FIELD', 'FIELD.origin', 'FIELD.origin.instance', 'Column(FIELD.origin.instance, FIELD.name)'
+
+    class Unknown(Exception):
+        pass
+
+    def value(e: ast.AST, env: dict):
+        if isinstance(e, ast.Name):
+            if e.id in env:
+                return env[e.id]
+            raise Unknown(core.src(e))
+        if isinstance(e, ast.Attribute):
+            base = value(e.value, env) if not (isinstance(e.value, ast.Name) and e.value.id in ('self', 'dsl')) else core.src(e.value)
+            if e.attr == 'origin' and base == F:
+                return O
+            if e.attr == 'origin' and base == COL:
+                return I  # a Column reports the table it was made for
+            if e.attr == 'instance' and base == O:
+                return I
+            if e.attr == 'name' and base == F:
+                return 'FIELD.name'
+            return f'{base}.{e.attr}'
+        if isinstance(e, ast.Call) and core.src(e.func) in ('dsl.Column', 'Column') and len(e.args) == 2 and not e.keywords:
+            a, b = value(e.args[0], env), value(e.args[1], env)
+            return COL if (a, b) == (I, 'FIELD.name') else f'Column({a}, {b})'
+        raise Unknown(core.src(e)[:40])
+
+    def truth(t: ast.AST, env: dict, case: dict):
+        if isinstance(t, ast.UnaryOp) and isinstance(t.op, ast.Not):
+            return not truth(t.operand, env, case)
+        if isinstance(t, ast.BoolOp):
+            vals = [truth(v, env, case) for v in t.values]
+            return all(vals) if isinstance(t.op, ast.And) else any(vals)
+        if isinstance(t, ast.Call) and core.call_name(t) == 'isinstance' and len(t.args) == 2:
+            what, cls = value(t.args[0], env), core.src(t.args[1])
+            if what == O and cls == 'dsl.Reference':
+                return case['ref']
+            if what == I and cls == 'dsl.Table':
+                return case['table']
+        raise Unknown(core.src(t)[:60])
+
+    def run(body: list, env: dict, case: dict, out: list) -> bool:
+        """False when the round was left (continue)."""
+        for st in body:
+            if isinstance(st, ast.Assign) and len(st.targets) == 1 and isinstance(st.targets[0], ast.Name):
+                env[st.targets[0].id] = value(st.value, env)
+            elif isinstance(st, ast.If):
+                if not run(st.body if truth(st.test, env, case) else st.orelse, env, case, out):
+                    return False
+            elif isinstance(st, ast.Continue):
+                return False
+            elif isinstance(st, ast.Expr) and isinstance(st.value, ast.Call) and isinstance(st.value.func, ast.Attribute) and st.value.func.attr == 'add' and isinstance(st.value.func.value, ast.Attribute) and st.value.func.value.attr == 'fields' and isinstance(st.value.func.value.value, ast.Subscript) and core.src(st.value.func.value.value.value) == 'self' and len(st.value.args) == 1:
+                out.append((value(st.value.func.value.value.slice, env), value(st.value.args[0], env)))
+            elif isinstance(st, ast.Expr) and isinstance(st.value, ast.Constant):
+                continue
+            elif isinstance(st, ast.Pass):
+                continue
+            else:
+                raise Unknown(core.src(st)[:60])
+        return True
+
+    want = {(False, False): [(O, F)], (False, True): [(O, F)], (True, True): [(I, COL)], (True, False): []}
+    texts = {(False, False): 'a plain column is registered in the segment of its own origin', (False, True): 'a plain column is registered in the segment of its own origin', (True, True): 'an element of a referenced table is registered as the column of that table, in the segment of that table', (True, False): 'only elements of referenced non-table sources are skipped'}
+    keys = {(False, False): 'select:own-origin', (False, True): 'select:own-origin:2', (True, True): 'select:re-attribute', (True, False): 'select:skip'}
+    for (ref, table), expect in want.items():
+        got: typing.Any = []
+        try:
+            run(loop.body, {loop.target.id: F}, {'ref': ref, 'table': table}, got)
+        except Unknown as err:
+            got = f'construct outside the vocabulary of the case walk: {err}'
+        ctx.check(got == expect, 'C14.registration', sel, f'{texts[(ref, table)]} (reference={ref}, table={table}: registered {got})', loop, key=keys[(ref, table)])
 
 
 def _visit_table(ctx, vt) -> None:
